@@ -579,10 +579,11 @@ Proof.
   exfalso. exact (H b eq_refl).
 Qed.
 
-Definition remove_stale_top (d : fs) : fs :=
+(* since 62b109f the stale file in magefiles/ is removed only when magefiles/ is the directory used *)
+Definition remove_stale_top (ohf : bool) (d : fs) : fs :=
   let d1 := remove_stale d in
   match lookup d1 magefilesDir with
-  | Some (Dir sub) => set magefilesDir (Dir (remove_stale sub)) d1
+  | Some (Dir sub) => if ohf then d1 else set magefilesDir (Dir (remove_stale sub)) d1
   | _ => d1
   end.
 
@@ -593,18 +594,31 @@ Proof.
   rewrite stale_set_main by exact Hd. reflexivity.
 Qed.
 
-Lemma invoke_top_leftover_sub : forall w faults fl tn ohf d sub junk, w_fixed w = true ->
+Lemma invoke_top_leftover_sub : forall w faults fl tn d sub junk, w_fixed w = true ->
   lookup d magefilesDir = Some (Dir sub) -> plain sub ->
-  invoke_named w faults fl tn ohf (set magefilesDir (Dir (set mainfile (File junk) sub)) d) = invoke_named w faults fl tn ohf d.
+  invoke_named w faults fl tn false (set magefilesDir (Dir (set mainfile (File junk) sub)) d) = invoke_named w faults fl tn false d.
 Proof.
-  intros w faults fl tn ohf d sub junk Hf L Hs. unfold invoke_named, rs. rewrite Hf.
+  intros w faults fl tn d sub junk Hf L Hs. unfold invoke_named, rs. rewrite Hf.
   rewrite stale_set_other by exact mfd_neq_main.
   rewrite lookup_set_same.
   rewrite (stale_lookup_other d magefilesDir mfd_neq_main). rewrite L.
   rewrite stale_set_main by exact Hs.
-  destruct ohf; [rewrite set_set; reflexivity|].
   destruct (invoke_dir w faults (with_mfdir fl true) (remove_stale sub)) as [sub2 c].
   rewrite set_set. reflexivity.
+Qed.
+
+(* the directory that is NOT chosen ("." has magefiles of its own): magefiles/ and everything in it,
+   a file called mage_output_file.go included, is left exactly as it is *)
+Lemma unchosen_magefiles_untouched : forall w faults fl tn d e, nolink d ->
+  lookup d magefilesDir = Some e ->
+  lookup (fst (invoke_named w faults fl tn true d)) magefilesDir = Some e.
+Proof.
+  intros w faults fl tn d e Hd L. unfold invoke_named.
+  assert (N1 : nolink (rs w d)) by (unfold rs; destruct (w_fixed w); [apply stale_nolink|]; exact Hd).
+  assert (L1 : lookup (rs w d) magefilesDir = Some e).
+  { unfold rs. destruct (w_fixed w); [rewrite (stale_lookup_other d magefilesDir mfd_neq_main)|]; exact L. }
+  rewrite L1.
+  destruct e as [b|sub|t]; rewrite (invoke_untouched _ _ _ _ magefilesDir N1 mfd_neq_main); exact L1.
 Qed.
 
 Lemma invoke_clean_mf : forall w faults fl b d, w_fixed w = true -> nolink d -> safe w faults ->
@@ -613,7 +627,7 @@ Proof. intros. apply invoke_clean; try assumption. Qed.
 
 Lemma invoke_top_clean : forall w faults fl tn ohf d, w_fixed w = true -> safe w faults -> f_keep fl = false ->
   nolink d -> (forall sub, lookup d magefilesDir = Some (Dir sub) -> nolink sub) ->
-  fst (invoke_named w faults fl tn ohf d) = remove_stale_top d.
+  fst (invoke_named w faults fl tn ohf d) = remove_stale_top ohf d.
 Proof.
   intros w faults fl tn ohf d Hf W K Hd Hsub. unfold invoke_named, remove_stale_top, rs. rewrite Hf.
   pose proof (stale_nolink d Hd) as Hd1.
@@ -622,10 +636,7 @@ Proof.
     try (rewrite invoke_clean_mf by assumption; apply stale_idem).
   pose proof (stale_nolink sub (Hsub sub eq_refl)) as Hs1.
   destruct ohf.
-  - rewrite invoke_clean_mf; try assumption.
-    + apply stale_fix. intros b. rewrite lookup_set_other by (intro X; apply mfd_neq_main; symmetry; exact X).
-      rewrite stale_lookup_main. destruct (lookup d mainfile) as [[b'|es|t]|]; discriminate.
-    + intros t. rewrite lookup_set_other by (intro X; apply mfd_neq_main; symmetry; exact X). apply Hd1.
+  - rewrite invoke_clean_mf by assumption. apply stale_idem.
   - destruct (invoke_dir w faults (with_mfdir fl true) (remove_stale sub)) as [sub2 c] eqn:R.
     cbn [fst].
     assert (X : sub2 = remove_stale sub).
@@ -882,14 +893,14 @@ Lemma p_leftover_top : forall w faults fl, w_fixed w = true -> forall tn ohf d j
   invoke_named w faults fl tn ohf (set mainfile (File junk) d) = invoke_named w faults fl tn ohf d.
 Proof. intros. apply invoke_top_leftover; assumption. Qed.
 
-Lemma p_leftover_sub : forall w faults fl, w_fixed w = true -> forall tn ohf d sub junk,
+Lemma p_leftover_sub : forall w faults fl, w_fixed w = true -> forall tn d sub junk,
   lookup d magefilesDir = Some (Dir sub) -> plain sub ->
-  invoke_named w faults fl tn ohf (set magefilesDir (Dir (set mainfile (File junk) sub)) d) = invoke_named w faults fl tn ohf d.
+  invoke_named w faults fl tn false (set magefilesDir (Dir (set mainfile (File junk) sub)) d) = invoke_named w faults fl tn false d.
 Proof. intros. apply invoke_top_leftover_sub; assumption. Qed.
 
 Lemma p_clean_top : forall w faults fl, w_fixed w = true -> w_cleanup w = true -> forall tn ohf d, f_keep fl = false ->
   nolink d -> (forall sub, lookup d magefilesDir = Some (Dir sub) -> nolink sub) ->
-  fst (invoke_named w faults fl tn ohf d) = remove_stale_top d.
+  fst (invoke_named w faults fl tn ohf d) = remove_stale_top ohf d.
 Proof. intros. apply invoke_top_clean; try assumption. right. assumption. Qed.
 
 Lemma p_init_only_creates : forall open_fault write_fault tpl partial d,
@@ -1007,3 +1018,15 @@ Lemma p_compile_others : forall w faults fl, w_fixed w = true -> w_cleanup w = t
   f_keep fl = false -> nolink d -> out <> mainfile -> n <> out -> n <> mainfile ->
   lookup (fst (invoke_compile w faults fl out bin inner d)) n = lookup d n.
 Proof. intros. apply compile_other_entries; assumption. Qed.
+
+(* before commit 62b109f a leftover in the magefiles/ directory that is NOT used was removed all the same *)
+Lemma before_62b109f_refuted : exists w faults fl d sub,
+  lookup d magefilesDir = Some (Dir sub) /\ lookup sub mainfile = Some (File "in use by another mage") /\
+  lookup (fst (invoke_named w faults fl false true d)) magefilesDir = Some (Dir sub) /\
+  lookup (fst (invoke_named_before_62b109f w faults fl false true d)) magefilesDir <> Some (Dir sub).
+Proof.
+  exists (w_ex true true), no_faults, (fl_ex false),
+         (d_ex ++ [(magefilesDir, Dir [("tasks.go", File "t"); (mainfile, File "in use by another mage")])]),
+         [("tasks.go", File "t"); (mainfile, File "in use by another mage")].
+  vm_compute. repeat split. discriminate.
+Qed.
